@@ -12,6 +12,7 @@ from .. import resources_live as RL
 
 THEOREMS = [
     "C22_source_shape",
+    "C22_created_by_finished_is_fresh",
     "C22_mutual_exclusion",
     "C22_cached_created_once",
     "C22_created_once_per_invocation",
@@ -43,6 +44,10 @@ EXPLANATION = (
     "to one of its members and the requested resource is not well-founded; an invocation that completes has only "
     "well-founded requests; a raising factory is the only other failure; every await-free section of a resolution ends "
     "after finitely many micro-steps on every graph (lexicographic measure: scoped cache, stack, dependencies left). "
+    "An invocation created by a finished invocation -- asyncio.create_task copies the creator's context, _held_scopes "
+    "binding included -- is an ordinary invocation (C22_created_by_finished_is_fresh), so the theorems cover "
+    "resolve-then-spawn task trees; the runs exercise them (invocations created in a copy of a finished invocation's "
+    "context, child workflows run from a step with injected resources, callers that resolve before run()). "
     "Factories carry the value they return (object, None, 0, '', [], False): a factory returns at most once per "
     "invocation (C22_created_once_per_invocation) and no transition reads the value (C22_value_independent: the runs "
     "of a graph and of the same graph with all values replaced by ordinary objects are equal), so a stored falsy "
@@ -69,6 +74,10 @@ ASSUMPTIONS = [
     "the code's try/finally and `async with` handle it and the workflow-level monitors run over such executions",
     "one descriptor per resource name; ResourceManager.set() by hand and _ResourceConfig (no dependencies, always "
     "cached) are outside the model",
+    "tasks are created by invocations that have finished resolving (their scope is closed); a task created while its "
+    "creator is still inside a resolution scope inherits the creator's _held_scopes binding and joins that scope "
+    "without the lock -- partial() and _Resource.call create no tasks (source shape); user factories that fan out "
+    "resolutions to child tasks are outside the model and the generators",
     "one event loop at a time per manager (the repaired code re-creates its lock when the running loop changes)",
     "termination of every await-free section is a theorem (C22_resolution_terminates); absence of deadlock between "
     "invocations (a released lock is handed on, every suspended invocation can be resumed) is only exercised by the "
@@ -190,8 +199,14 @@ def gen_reqs(rng: random.Random, g: list[dict]) -> list[int]:
 class Chooser:
     """Adaptive schedule: at every quiescent point spawn the next task or open a gate."""
 
-    def __init__(self, rng: random.Random, g: list[dict], ntasks: int, style: str, excl: bool = True):
+    def __init__(self, rng: random.Random, g: list[dict], ntasks: int, style: str, excl: bool = True,
+                 tree: bool = False):
         self.rng, self.g, self.ntasks, self.style = rng, g, ntasks, style
+        # task trees: an invocation that has finished (it resolved its resources, its scope is closed) creates
+        # later invocations, which start in a copy of its context -- resolve-then-spawn, nested to any depth
+        self.tree = tree
+        self.p_child = rng.choice([0.5, 0.8, 1.0])
+        self.one_root = tree and rng.random() < 0.7
         # Unlocked tree only: a bare get that joined another invocation's scope re-checks the shared depth at
         # each nested get and opens scopes of its own once that scope has closed; the unlocked model
         # configuration does not follow this (see WfModel/Resource.lean), so bare gets there ask for leaves.
@@ -201,8 +216,16 @@ class Chooser:
         self.bad = rng.random() < 0.15
         self.reloop = rng.random() < 0.2
 
-    def __call__(self, gates: list[int], ntasks_now: int) -> list | None:
+    def _spawn(self, mode: str, reqs: list[int], finished: list[int]) -> list:
+        if self.tree and finished and self.rng.random() < self.p_child:
+            # mostly the same parent (siblings share what their parent left behind), sometimes a nested spawn
+            parent = finished[0] if self.rng.random() < 0.6 else self.rng.choice(finished)
+            return ["spawn", mode, reqs, parent]
+        return ["spawn", mode, reqs]
+
+    def __call__(self, gates: list[int], ntasks_now: int, finished: list[int] = ()) -> list | None:  # type: ignore[assignment]
         rng = self.rng
+        finished = list(finished)
         can_spawn = self.spawned < self.ntasks
         if not can_spawn and not gates:
             return None
@@ -218,11 +241,13 @@ class Chooser:
             spawn = can_spawn
         else:
             spawn = can_spawn and (not gates or rng.random() < 0.5)
+        if self.one_root and self.spawned == 1 and gates and not finished:
+            spawn = False  # let the root of the tree finish its resolution first
         if spawn:
             self.spawned += 1
             if rng.random() < 0.12 and self.bare_pool:
-                return ["spawn", "b", [rng.choice(self.bare_pool)]]
-            return ["spawn", "p", gen_reqs(rng, self.g)]
+                return self._spawn("b", [rng.choice(self.bare_pool)], finished)
+            return self._spawn("p", gen_reqs(rng, self.g), finished)
         return ["open", rng.choice(gates)]
 
 
@@ -288,6 +313,16 @@ def parse_events(events: list[str]) -> list[tuple]:
     return out
 
 
+def ctag(info: dict) -> str:
+    """Classifying facts of the execution, part of every signature that depends on the schedule."""
+    tag = "[concurrent]" if info.get("overlapped", False) else "[sequential]"
+    if any(rec.get("parent") is not None for rec in info["tasks"]) or info.get("ancestor_resolved"):
+        # some invocation was created by a task that had resolved resources before (it started in a copy of
+        # that task's context: a child workflow run from a step with injected resources, a warmed-up caller)
+        tag += "[created-by-a-resolver]"
+    return tag
+
+
 def monitor(g: list[dict], info: dict, all_opened: bool, final_state: str | None) -> list[tuple[str, str]]:
     """Returns (signature, what) pairs."""
     res: list[tuple[str, str]] = []
@@ -295,7 +330,7 @@ def monitor(g: list[dict], info: dict, all_opened: bool, final_state: str | None
     wf = wellfounded(g)
     n = len(g)
     overlapped = info.get("overlapped", False)
-    tag = "[concurrent]" if overlapped else "[sequential]"
+    tag = ctag(info)
 
     made: dict[int, list[tuple[int, int]]] = {}  # rid -> [(task, serial)]
     serial_rid: dict[int, int] = {}
@@ -476,6 +511,10 @@ def run_cases(cases: list[dict], cfg: dict, out: Outcome, label: str) -> None:
         out.count(f"{label}:graph:{case.get('shape', '?')}")
         if info["overlapped"]:
             out.count(f"{label}:overlapping")
+        if any(rec.get("parent") is not None for rec in info["tasks"]):
+            out.count(f"{label}:task-tree(created-by-a-finished-invocation)")
+            if info["overlapped"]:
+                out.count(f"{label}:task-tree:overlapping")
         count_values(out, label, g)
         for rec in info["tasks"]:
             o = rec["outcome"]
@@ -501,13 +540,15 @@ def run_case(case: dict, cfg: dict, out: Outcome, label: str) -> None:
     run_cases([case], cfg, out, label)
 
 
-def gen_case(rng: random.Random, style: str | None = None, max_tasks: int = 4, excl: bool = True) -> dict:
+def gen_case(rng: random.Random, style: str | None = None, max_tasks: int = 4, excl: bool = True,
+             tree: bool | None = None) -> dict:
     g, kind = gen_graph(rng)
     style = style or rng.choices(["mixed", "burst", "serial"], [6, 3, 2])[0]
-    ntasks = rng.randint(1, max_tasks)
-    ch = Chooser(rng, g, ntasks, style, excl)
+    tree = rng.random() < 0.3 if tree is None else tree
+    ntasks = rng.randint(3 if tree else 1, max(3, max_tasks))
+    ch = Chooser(rng, g, ntasks, style, excl, tree)
     ops = RL.explore_direct(g, ch)
-    return {"g": g, "ops": ops, "shape": kind, "style": style}
+    return {"g": g, "ops": ops, "shape": kind, "style": style + ("+tree" if tree else "")}
 
 
 # --------------------------------------------------------------------------
@@ -537,6 +578,10 @@ def run_wf_cases(cases: list[dict], cfg: dict, out: Outcome) -> None:
         out.count("workflow:invocations", len(info["tasks"]))
         if info["overlapped"]:
             out.count("workflow:overlapping")
+        if case.get("outer"):
+            out.count("workflow:run-from-a-step-of-an-enclosing-workflow")
+        if case.get("pre"):
+            out.count("workflow:caller-resolved-a-resource-first")
         count_values(out, "workflow", g)
         out.count("workflow:result:" + info["result"].split(":")[0])
         out.nontrivial(("wf", g, case["workers"], ops))
@@ -578,11 +623,11 @@ def run_wf_cases(cases: list[dict], cfg: dict, out: Outcome) -> None:
             out.violations.append(Violation(sig, what, {"kind": "workflow", **case}))
         if info["result"] == "stuck":
             out.violations.append(Violation(
-                "C22/stuck" + ("[concurrent]" if info["overlapped"] else "[sequential]"),
+                "C22/stuck" + ctag(info),
                 "workflow never finished: no invocation can run and no gate is left to open", {"kind": "workflow", **case}))
         if info["result"].startswith("error:") and all(wellfounded(g)) and not any(r["f"] for r in g):
             out.violations.append(Violation(
-                "C22/workflow_failed" + ("[concurrent]" if info["overlapped"] else "[sequential]"),
+                "C22/workflow_failed" + ctag(info),
                 f"workflow over an acyclic graph of non-raising factories failed: {info['result']}", {"kind": "workflow", **case}))
 
 
@@ -606,7 +651,14 @@ def gen_wf_case(rng: random.Random) -> dict:
         workers.append({"reqs": reqs, "num_workers": rng.choice([1, 2, 3, 4]), "count": rng.randint(1, 4)})
     order = [i for i, w in enumerate(workers) for _ in range(w["count"])]
     rng.shuffle(order)
-    return {"g": g, "workers": workers, "order": order, "seed": rng.randrange(1 << 30), "shape": kind}
+    case = {"g": g, "workers": workers, "order": order, "seed": rng.randrange(1 << 30), "shape": kind}
+    # history in an ancestor context of the step tasks: the workflow runs inside a step (with an injected
+    # resource) of 1-2 enclosing workflows, and/or its caller resolved something through the manager first
+    if rng.random() < 0.4:
+        case["outer"] = rng.choice([1, 1, 2])
+    if rng.random() < 0.25:
+        case["pre"] = [rng.randrange(len(g)) for _ in range(rng.choice([1, 1, 2]))]
+    return case
 
 
 # --------------------------------------------------------------------------
@@ -635,8 +687,10 @@ def run(env: Env) -> Outcome:
     out = Outcome()
     out.rule = ("random dependency graphs (1-6 resources; dag/diamond/cycle/self-cycle/dense; cached, async, raising mixes; "
                 "factories returning an object or, in half of the graphs, None/0/''/[]/False) "
-                "x adaptive schedules of 1-4 invocations (real partial() or bare get) opening gates at quiescent points; "
-                "real workflows with concurrent worker steps; non-trivial = at least two invocations or a dependency edge; "
+                "x adaptive schedules of 1-6 invocations (real partial() or bare get) opening gates at quiescent points, "
+                "in 30% of the cases as a task tree (invocations created by finished invocations, in a copy of their "
+                "context, nested); real workflows with concurrent worker steps, 40% run from a step with an injected "
+                "resource of 1-2 enclosing workflows, 25% after the caller resolved resources through the manager; non-trivial = at least two invocations or a dependency edge; "
                 "distinct by (graph, op list)")
     cfg = tree_cfg()
     out.notes.append(f"tree configuration: exclusive scopes={cfg['excl']} partial skips empty={cfg['skip']}")
@@ -649,7 +703,7 @@ def run(env: Env) -> Outcome:
     run_cases([c for c in corpus if "workers" not in c], cfg, out, "corpus")
     run_wf_cases([c for c in corpus if "workers" in c], cfg, out)
     rng = random.Random(env.rng.randrange(1 << 30))
-    n1, n2 = env.budget(1500, 45000), env.budget(200, 6000)
+    n1, n2 = env.budget(1400, 34000), env.budget(200, 5000)
     for lo in range(0, n1, 500):
         run_cases([gen_case(rng, excl=cfg["excl"]) for _ in range(min(500, n1 - lo))], cfg, out, "direct")
     for lo in range(0, n2, 500):
@@ -665,7 +719,7 @@ def run(env: Env) -> Outcome:
     except Exception as ex:
         out.divergences.append(Divergence("resource", 0, "<driver>", repr(ex), ""))
     wrng = random.Random(env.rng.randrange(1 << 30))
-    nw = env.budget(80, 2400)
+    nw = env.budget(80, 2000)
     for lo in range(0, nw, 200):
         run_wf_cases([gen_wf_case(wrng) for _ in range(min(200, nw - lo))], cfg, out)
     return out
